@@ -45,6 +45,12 @@ pub fn generate(thorough: bool, seed: u64, em: &mut Emitter) {
         let mut case = present_case(&tok, &token, &clear, &redact, kb, 3, verifier);
         case["judge_disclosures"] = json!(true);
         case["nontrivial"] = json!(true);
+        if i % 160 == 6 {
+            // the Holder is prepared first and builds a good second later (and again later for the repeated builds):
+            // iat is the time of each build(), not of key_binding()
+            case["sleep_ms"] = json!(1100);
+            case["tag"] = json!("build_later_than_key_binding");
+        }
         if i % 5 == 2 {
             // key_binding called twice on the same Holder with different parameters: the KB-JWT is built from the
             // parameters supplied last
